@@ -420,9 +420,10 @@ def r_keys(model, rep):
 def r_uid_parse(model, rep):
     """the module UID regex splits NAME:STREAM[:VERSION[:CONTEXT]] as documented (prioritised-parse proof)"""
     h = _fref(model, "modules.Modules.parse_uid")
-    pats = facts.function_regexes(model, h)
-    if len(pats) != 1:
-        raise AnalysisError("parse_uid: expected one pattern")
+    from .regexes import applied_regex
+    pats = applied_regex(model, h)
+    if len(pats) != 1 or pats[0][1] != "match":
+        raise AnalysisError("parse_uid: expected one pattern applied with .match")
     R = pats[0][0]
     P_ = r"[A-Za-z0-9._+-]+"
     Lp = r"^(?P<module_name>%s):(?P<stream>%s)(?::(?P<version>%s)(?::(?P<context>%s))?)?$" % (P_, P_, P_, P_)
@@ -466,15 +467,29 @@ def r_relative_to(model, rep):
         and uses[0].value[2][0][2] == ("const", "file")
     rep.ob("R-RELATIVE-TO", "ExtraFiles.dump_for_tree:uses-_relative_to", ok, site=dcx.site(d.node),
            msg="" if ok else "dump_for_tree must strip the base path from item['file'] through _relative_to")
-    # iterates the addressed cell completely, keeps size/checksums
-    it = [ev for ev in dcx.events if ev.kind == "call" and ev.value[1][0] == "attr" and ev.value[1][2] == "append" and ev.loops]
-    ok = len(it) == 1 and it[0].loops[-1][1] == ("sub", ("sub", ("attr", ("param", dcx.selfname), "extra_files"), ("param", "variant")), ("param", "arch")) \
-        and not T.guard_tests(it[0])
-    if ok:
-        v = T.unwrap(it[0].value[2][0])
-        el = ("elem", it[0].loops[-1][1], it[0].loops[-1][0])
-        got = dict((k[1], val) for k, val in v[1]) if v[0] == "dict" else {}
-        ok = got.get("size") == ("sub", el, ("const", "size")) and got.get("checksums") == ("sub", el, ("const", "checksums")) and set(got) == {"file", "size", "checksums"}
+    # iterates the addressed cell completely, keeps size/checksums: the 'data' list of the dumped document is
+    # [{file, size, checksums} for every entry of the cell], as a loop with append or as a comprehension
+    cell = ("sub", ("sub", ("attr", ("param", dcx.selfname), "extra_files"), ("param", "variant")), ("param", "arch"))
+    ok = False
+    dumps = [ev for ev in dcx.events if ev.kind == "call" and ev.value[1] == ("global", "json.dump") and ev.value[2]]
+    if len(dumps) == 1:
+        doc = T.unwrap(dumps[0].value[2][0])
+        data = [v for k, v in doc[1] if k == ("const", "data")] if doc[0] == "dict" else []
+        if len(data) == 1:
+            cands = facts.collections_of(dcx, data[0])
+            if data[0][0] == "sub" or not cands:
+                # metadata["data"].append(...): the list literal lives inside the document literal
+                cands = [facts.Collect("append", ev.value[2][0], [(("elem", l[1], l[0]), l[1]) for l in ev.loops],
+                                       [g[0] for g in T.guard_tests(ev)], ev)
+                         for ev in dcx.events if ev.kind == "call" and ev.value[1][0] == "attr" and ev.value[1][2] == "append" and ev.loops
+                         and ev.seq < dumps[0].seq]
+            for c in cands:
+                if len(c.gens) == 1 and c.its[0] == cell and not c.conds:
+                    v = T.unwrap(c.elt)
+                    el = c.els[0]
+                    got = dict((k[1], val) for k, val in v[1]) if v[0] == "dict" else {}
+                    ok = got.get("size") == ("sub", el, ("const", "size")) and got.get("checksums") == ("sub", el, ("const", "checksums")) \
+                        and set(got) == {"file", "size", "checksums"}
     rep.ob("R-RELATIVE-TO", "ExtraFiles.dump_for_tree:every-entry", ok, site=dcx.site(d.node),
            msg="" if ok else "dump_for_tree must emit {file, size, checksums} for every entry of extra_files[variant][arch]")
 
